@@ -180,6 +180,17 @@ Proof.
     rewrite Hp. destruct (nth i ps (mkWPS P 0%nat p0)) as [m ph]. simpl in *. now subst.
 Qed.
 
+(* the same for a whole history of calls: from_weights builds a fresh structure from its
+   arguments only, so every element of a list of decompositions (same d, any contents) is
+   reproduced, whatever the other calls were *)
+Theorem weights_roundtrip_history : forall d (decs : list (WDec P)),
+  Forall (fun dec => map (w_mode P) (snd dec) = seq 0 d) decs ->
+  map (fun dec => from_weights P p0 (map (w_modes P) (fst dec)) d (to_weights P dec)) decs = decs.
+Proof.
+  intros d decs H. rewrite <- (map_id decs) at 2. apply map_ext_in.
+  intros dec Hin. rewrite Forall_forall in H. now apply weights_roundtrip, H.
+Qed.
+
 Lemma to_weights_length : forall (dec : WDec P),
   length (to_weights P dec) = (2 * length (fst dec) + length (snd dec))%nat.
 Proof.
